@@ -45,6 +45,37 @@ var bareTable = []bareOp{
 	{"(*chanutils.BatchWriter[T]).AddItem", "send", "field:ConcurrentQueue.chanIn", 1, "exception", "the queue goroutine receives unconditionally while running; the last producer (work manager workers) is stopped before the batch writer (C17.O1)"},
 }
 
+// goesRoundAgain: from the edge e a loop head (the target of a back edge) can
+// be reached again. The exploration knows what the edge decided and the
+// values result variables hold on the edges it takes (an error put aside on
+// the failure edge and tested behind the merge sends the path to the return),
+// so a helper written out in the loop body, whose exits all meet in one
+// `if err != nil { return }`, is followed the way its exits go. Returns the
+// loop head reached, or nil.
+func goesRoundAgain(e ir.Edge, back map[ir.Edge]bool) *ssa.BasicBlock {
+	heads := map[*ssa.BasicBlock]bool{}
+	for be := range back {
+		heads[be.From.Succs[be.Succ]] = true
+	}
+	to := e.From.Succs[e.Succ]
+	var hit *ssa.BasicBlock
+	facts := map[ssa.Value]bool{}
+	if iff, ok := e.From.Instrs[len(e.From.Instrs)-1].(*ssa.If); ok {
+		facts[iff.Cond] = e.Succ == 0
+	}
+	ir.WalkFacts(to, 0, e.From, nil, facts, func(in ssa.Instruction) bool {
+		if hit != nil {
+			return false
+		}
+		if b := in.Block(); heads[b] && len(b.Instrs) > 0 && b.Instrs[0] == in && b != to {
+			hit = b
+			return false
+		}
+		return true
+	})
+	return hit
+}
+
 func runC17(c *Ctx) {
 	if os.Getenv("NVET_DEBUG_GO") != "" {
 		c.debugGoSites()
@@ -61,11 +92,8 @@ func runC17(c *Ctx) {
 		var bad []string
 		for _, gs := range g.sites {
 			e := gs.br.Other()
-			reach := ir.Reach([]*ssa.BasicBlock{e.From.Succs[e.Succ]}, nil)
-			for be := range back {
-				if reach[be.From] {
-					bad = append(bad, "after the failed Subscribe at "+c.at(gs.site)+" the loop can go round again (back edge at "+c.at(be.From.Instrs[len(be.From.Instrs)-1])+")")
-				}
+			if hdr := goesRoundAgain(e, back); hdr != nil {
+				bad = append(bad, "after the failed Subscribe at "+c.at(gs.site)+" the loop can go round again (loop head at "+c.at(hdr.Instrs[0])+")")
 			}
 		}
 		for _, u := range g.unchecked {
@@ -140,11 +168,8 @@ func runC17(c *Ctx) {
 						if br.Pol < 0 {
 							continue
 						}
-						reach := ir.Reach([]*ssa.BasicBlock{e.From.Succs[e.Succ]}, nil)
-						for be := range back {
-							if reach[be.From] {
-								bad = append(bad, c.nm(fn)+": after the subscription is found closed at "+c.at(br.If)+" the loop can go round again")
-							}
+						if goesRoundAgain(e, back) != nil {
+							bad = append(bad, c.nm(fn)+": after the subscription is found closed at "+c.at(br.If)+" the loop can go round again")
 						}
 					}
 				}
